@@ -33,6 +33,7 @@ type Obligation struct {
 	Status     string // discharged | refuted | unknown | trivial
 	Solver     string
 	Ms         int64
+	MaxMs      int64 // slowest single query
 	Model      string
 	SMTFile    string
 	Restricted string // known-finding restriction applied
